@@ -311,3 +311,63 @@ def dfxp_read_skeleton(c):
 def prove_dfxp_read_skeleton(ctx):
     from pycaption.dfxp.base import DFXPReader as DR
     ctx.prove("dfxp.DFXPReader.read", dfxp_read_skeleton, functions=[DR.read, DR._convert_div_to_caption_list], crosscheck=False)
+
+
+# ------------------------------------------------------------------------------------ SAMIReader.read
+
+def sami_read_skeleton(c):
+    """SAMIReader.read as a skeleton (C14; shared with C01): P[n] over the languages a document declares (one, two, two in
+    the other order, three of which one has no class of its own) x the order of the style classes.  The SAMI pre-parser,
+    the XML parser, `_build_layout`, `_translate_lang` and `_translate_parsed_style` are recording stubs.
+
+      * every declared language is translated exactly once, in the order of declaration, from the one parsed document,
+        with the layout of the class that names THAT language (else the document's `p` layout);
+      * the result has exactly the declared languages, in that order, each with the captions translated for it - never
+        another language's; a second document read with the same reader gives what a fresh reader gives."""
+    from pycaption.base import Caption, CaptionList, CaptionNode
+    from pycaption.sami import SAMIReader as SR
+    langs = c.pick("declared_languages", [("en-US",), ("en-US", "fr-FR"), ("fr-FR", "en-US"), ("en", "en-US", "de")])
+    rev = c.pick("classes_in_reverse_order", [False, True])
+    classes = [(".cc_" + l.lower().replace("-", ""), {"lang": l, "margin-top": l}) for l in langs if l != "de"]
+    if rev:
+        classes.reverse()
+    doc_styles = dict([("p", {"margin-top": "p"})] + classes + [("span", {"lang": langs[0]}), ("#source", {"name": "x"})])
+    soup = ("soup",)
+    log = []
+
+    class Pre:
+        def feed(self, content):
+            log.append(("feed", content))
+            return "<cleaned>", doc_styles, list(langs)
+
+    def h_layout(interp, fn, a, kw):
+        x = N(fn, a, kw)
+        return ("layout", x["styles"].get("margin-top"), x["inherit_from"])
+
+    def h_lang(interp, fn, a, kw):
+        x = N(fn, a, kw)
+        log.append(("lang", x["language"], x["sami_soup"] is soup, x["parent_layout"]))
+        return CaptionList([Caption(10 ** 6, 2 * 10 ** 6, [CaptionNode.create_text("cue of " + x["language"])])])
+    q = "pycaption.sami:SAMIReader."
+    c.interp.contracts.update({
+        q + "_get_sami_parser_class": lambda interp, fn, a, kw: Pre,
+        q + "_get_xml_parser_class": lambda interp, fn, a, kw: (lambda content, **kw_: (log.append(("xml", content)), soup)[1]),
+        q + "_build_layout": h_layout, q + "_translate_lang": h_lang,
+        q + "_translate_parsed_style": lambda interp, fn, a, kw: N(fn, a, kw)["styles"]})
+    rd = c.new(SR, line=[], first_alignment=None)
+    glob = ("layout", "p", None)
+    for turn in (1, 2):
+        del log[:]
+        r = c.call(SR.read, rd, "<SAMI/>", compare=False)
+        calls = [e_ for e_ in log if e_[0] == "lang"]
+        c.ensure(f"read{turn}/one_parse_of_the_cleaned_document", [e_ for e_ in log if e_[0] in ("feed", "xml")] == [("feed", "<SAMI/>"), ("xml", "<cleaned>")])
+        c.ensure(f"read{turn}/every_declared_language_translated_once_in_order_from_that_document", [(e_[1], e_[2]) for e_ in calls] == [(l, True) for l in langs])
+        c.ensure(f"read{turn}/with_the_layout_of_the_class_that_names_it_else_the_documents",
+                 [e_[3] for e_ in calls] == [glob if l == "de" else ("layout", l, glob) for l in langs])
+        c.ensure(f"read{turn}/exactly_the_declared_languages_in_order", r.get_languages() == list(langs))
+        c.ensure(f"read{turn}/each_language_has_the_captions_translated_for_it", [[x.get_text() for x in r.get_captions(l)] for l in langs] == [["cue of " + l] for l in langs])
+
+
+def prove_sami_read_skeleton(ctx):
+    from pycaption.sami import SAMIReader as SR
+    ctx.prove("sami.SAMIReader.read", sami_read_skeleton, functions=[SR.read], crosscheck=False)
